@@ -62,7 +62,7 @@ EPOCH = 1600000000      # runs that start at a large absolute time (a clock set 
 def cfg_C02(tier, rng):
     return [dict(name='skeleton', charts=f1(tier, rng, sample_t=2500) + shipped(max_oracle=4)
                  + gc.family_hist(rng, 25 if tier == QUICK else 250) + gc.family_hist_orth(rng, 10 if tier == QUICK else 60)
-                 + gc.family_fanout(rng, 14 if tier == QUICK else 120) + gc.family_nested(rng, 16 if tier == QUICK else 200),
+                 + gc.family_fanout(rng, 14 if tier == QUICK else 60) + gc.family_nested(rng, 16 if tier == QUICK else 80),
                  consts=dict(MaxQ=1, MaxLevel=8 if tier == QUICK else 10),
                  variants=[dict(variant='api'), dict(variant='api_edit')],
                  jobs_for=(lambda ci, h, r: [dict(variant=('api', 'api_edit')[(ci + len(h)) % 2])]) if tier == QUICK else None,
@@ -72,7 +72,7 @@ def cfg_C02(tier, rng):
 
 def cfg_C03(tier, rng):
     return [dict(name='skeleton', charts=f1(tier, rng, sample_t=2000) + shipped(max_oracle=4)
-                 + gc.family_hist(rng, 20 if tier == QUICK else 200) + gc.family_fanout(rng, 12 if tier == QUICK else 150),
+                 + gc.family_hist(rng, 20 if tier == QUICK else 200) + gc.family_fanout(rng, 12 if tier == QUICK else 60),
                  consts=dict(MaxQ=1, MaxLevel=8 if tier == QUICK else 10),
                  variants=[dict(variant='api_edit'), dict(variant='ryaml')],
                  jobs_for=(lambda ci, h, r: [dict(variant=('api_edit', 'ryaml')[(ci + len(h)) % 2])]) if tier == QUICK else None,
@@ -99,8 +99,8 @@ def cfg_C01(tier, rng):
                  random=dict(count=150 if tier == QUICK else 1500, length=12,
                              family=lambda r, kk: gc.family_f3(r, kk, nmin=5, nmax=9))),
             # the same guard text on several transitions whose values differ (time predicates relative to the source)
-            dict(name='sametext', charts=gc.family_sametext(rng, 10 if tier == QUICK else 80),
-                 consts=dict(MaxQ=1, MaxClk=3 if tier == QUICK else 4, Advances={1, 2}, MaxLevel=6 if tier == QUICK else 8),
+            dict(name='sametext', charts=gc.family_sametext(rng, 10 if tier == QUICK else 40),
+                 consts=dict(MaxQ=1, MaxClk=3 if tier == QUICK else 4, Advances={1, 2}, MaxLevel=6 if tier == QUICK else 7),
                  variants=[dict(variant='api')],
                  random=dict(count=60 if tier == QUICK else 600, length=16, advances=(1, 2),
                              family=lambda r, kk: gc.family_sametext(r, kk)))]
@@ -277,7 +277,7 @@ def mixed_family(tier, rng, small=40, big=20):
 
 def cfg_C07(tier, rng):
     charts = thin(mixed_family(tier, rng), rng, 8) + gc.family_nested(rng, 24 if tier == QUICK else 400)
-    charts += gc.family_fanout(rng, 6 if tier == QUICK else 80)
+    charts += gc.family_fanout(rng, 6 if tier == QUICK else 40)
     rd = dict(count=100 if tier == QUICK else 1000, length=14,
               family=lambda r, kk: gc.family_f3(r, kk, nmin=5, nmax=9))
     return [dict(name='declaration', charts=charts,
@@ -287,7 +287,7 @@ def cfg_C07(tier, rng):
                            dict(variant='api_reversed', twin=dict(rel='variant', kw=dict(variant='api', seed=3)))],
                  random=rd),
             dict(name='hashseed', charts=charts[:len(charts) // 3] + thin(gc.family_hist(rng, 24 if tier == QUICK else 300), rng, 9)
-                 + gc.family_nested(rng, 16 if tier == QUICK else 300) + gc.family_deep_orth(rng, 12 if tier == QUICK else 100)
+                 + gc.family_nested(rng, 16 if tier == QUICK else 300) + gc.family_deep_orth(rng, 12 if tier == QUICK else 50)
                  + [c for c in gc.family_f1(4) if 'deep' in c['kind']][:20],
                  consts=dict(MaxQ=1, MaxLevel=6 if tier == QUICK else 7),
                  variants=[dict(variant='api', pool='unicode')],
